@@ -160,7 +160,8 @@ SPEC = PropSpec(
     scenarios=[(1, C10Rotating)],
     runs={"quick": 30000, "thorough": 700000},
     rule=("THIN (hash seam only; restarts excluded because the statement excludes them).  one run = a "
-          "RotatingBloomFilter with est_elements 1..5, max_queue_size 1..4, <=70 steps of add (new/duplicate/forced), "
+          "RotatingBloomFilter with est_elements 1..5, max_queue_size 1..4 (1 run in 25: est 257/300 with bursts; 1 in 40: "
+          "queues of 256..300 filters with bulk pushes), <=70 steps of add (new/duplicate/forced), "
           "push and pop (incl. pop on a single-filter queue, which must be refused and change nothing); after every step "
           "1 <= queue <= max, per-filter counts (from the exported stream) <= est_elements, and every key whose "
           "insertion lies <= (max_queue_size-1)*est_elements effective insertions back with no explicit push/pop since "
